@@ -57,6 +57,7 @@ pub fn eval_simple(
     report: &mut diagn::Report,
     decls: &asm::ItemDecls,
     defs: &asm::ItemDefs,
+    symbol_ctx: &util::SymbolContext,
     expr: &expr::Expr)
     -> Result<expr::Value, ()>
 {
@@ -68,6 +69,7 @@ pub fn eval_simple(
                 asm::resolver::eval_variable_simple(
                     decls,
                     defs,
+                    symbol_ctx,
                     query_var),
                     
             expr::EvalQuery::Function(_) =>
@@ -213,6 +215,7 @@ pub fn eval_variable(
 pub fn eval_variable_simple(
     decls: &asm::ItemDecls,
     defs: &asm::ItemDefs,
+    symbol_ctx: &util::SymbolContext,
     query: &mut expr::EvalVariableQuery)
     -> Result<expr::Value, ()>
 {
@@ -225,8 +228,10 @@ pub fn eval_variable_simple(
         }
     }
 
+    // Relative references (`.x`) are looked up from
+    // the scope of the expression that contains them
     let symbol_ref = decls.symbols.try_get_by_name(
-        &util::SymbolContext::new_global(),
+        symbol_ctx,
         query.hierarchy_level,
         query.hierarchy);
 
